@@ -737,7 +737,10 @@ theorem step_ids {cfg : Cfg} {s s' : State} {op : Op} (h : step cfg s op = .ok s
     | fundReserve => unfold fundReserve at h; invert h; exact i
     | setPrice a t => simp only [Except.ok.injEq] at h; subst h; unfold setPrice; cases t <;> exact i
     | setKill a on => simp only [Except.ok.injEq] at h; subst h; exact i
-    | setDepreciated p => simp only [Except.ok.injEq] at h; subst h; exact i
+    | setDepreciated p f => simp only [Except.ok.injEq] at h; subst h; exact i
+    | beginBlock =>
+      obtain ⟨h1, h2, h3, _⟩ := beginBlock_frame h
+      unfold IdsS at *; rw [h1, h2, h3]; exact i
     | handover => exact handover_ids h i
     | bid => unfold auctionBid at h; invert h; exact i
     | auctionClose => exact auctionClose_ids h i
